@@ -629,6 +629,10 @@ class ProgOracle:
     def cumulant(self, n, k):
         return cumulants_from_moments({j: self.raw(n, j) for j in range(1, k + 1)})[k]
 
+    def scale(self, n, k):
+        """size of the largest product of raw moments of total order k (the terms that cancel in c_k / kappa_k)"""
+        return max(abs(float(self.raw(n, j))) ** (k / j) for j in range(1, k + 1))
+
     def p_ge(self, n, a):
         return sum((p for v, p in self.laws[n] if v >= a), F(0))
 
@@ -763,6 +767,7 @@ def run_prog(case, tier):
             if case.get("cli"):
                 _ev(res, "printed c/k block")
             ref = [orc.central(n, k) if g["type"] == "central" else orc.cumulant(n, k) for n in range(N + 1)]
+            scales = [None if isinstance(ref[n], F) else orc.scale(n, k) for n in range(N + 1)]
             sources = [("printed", Formula(b["formula"]).at)]
             if i in direct_exprs:
                 ex = direct_exprs[i][0]
@@ -775,7 +780,7 @@ def run_prog(case, tier):
                         bad = True
                         break
                     res["comparisons"] += 1
-                    if not _num_equal(v, ref[n]):
+                    if not _num_equal(v, ref[n], scales[n]):
                         res["violations"].append(_ck_violation(g, gs, n, v, ref[n], orc, sname, case, values, res))
                         bad = True
                         break
@@ -786,7 +791,7 @@ def run_prog(case, tier):
                 v = _safe_eval(lambda n, vals: P.eval_at(sympy.sympify(vtxt), None, vals), n_at, values, res, g, gs, "at_n")
                 if v is not None:
                     res["comparisons"] += 1
-                    if not _num_equal(v, ref[n_at]) and not bad:
+                    if not _num_equal(v, ref[n_at], scales[n_at]) and not bad:
                         res["violations"].append(_ck_violation(g, gs, n_at, v, ref[n_at], orc, "at_n line", case, values, res))
             if len(rows) < 3:
                 rows.append({"goal": gs, "printed": b["formula"][:160], "exact_values": [P.val_str(x) for x in ref[:4]]})
@@ -923,7 +928,7 @@ def _check_all_cumulants(case, orc, values, res):
             continue
         res["comparisons"] += 1
         ref = orc.cumulant(n_at, r)
-        if not _num_equal(v, ref):
+        if not _num_equal(v, ref, None if isinstance(ref, F) else orc.scale(n_at, r)):
             res["violations"].append({"kind": "wrong-cumulant", "key": _raw_key(case, orc, values, r, n_at), "k": r, "n": n_at,
                                       "detail": f"get_all_cumulants(..)[{r}] at n={n_at} = {P.val_str(v)}, exact cumulant {P.val_str(ref)}"})
 
@@ -940,10 +945,18 @@ def _safe_eval(fn, n, values, res, g, gs, what):
     return None
 
 
-def _num_equal(v, ref):
+def _num_equal(v, ref, scale=None):
+    """exact when both sides are rationals; when the reference itself is numeric (quadrature inside the reference
+    engine, ~20 digits on each raw moment) an absolute tolerance relative to the size of the terms that cancel"""
     if isinstance(v, F) and isinstance(ref, F):
         return v == ref
-    return P.values_equal(v, ref, rel_tol=1e-25)
+    if isinstance(ref, F):
+        return P.values_equal(v, ref, rel_tol=1e-25)
+    import mpmath as mp
+    with mp.workdps(60):
+        a = mp.mpf(v.numerator) / v.denominator if isinstance(v, F) else v
+        sc = max(1, abs(ref), scale or 1)
+        return abs(a - ref) <= mp.mpf(10) ** -10 * sc
 
 
 def _num_less(a, b):
